@@ -46,7 +46,8 @@ fn main() {
     let scale: f64 = std::env::var("VERIF_SCALE")
         .ok()
         .and_then(|s| s.parse().ok())
-        .unwrap_or(1.0);
+        .unwrap_or(1.0)
+        * props::mult(&id);
     let threads: usize = std::env::var("VERIF_JOBS")
         .ok()
         .and_then(|s| s.parse().ok())
